@@ -42,11 +42,11 @@ func allChecks() []Check {
 			Runs: []HarnessRun{
 				{Harness: "VP_C01_scaling", Quick: map[string]int{}, MustReach: []string{"C01/scaling/done"}, PanicLabel: "C01/scaling/no-panic", SampleEvery: 2},
 				{Harness: "VP_C01_pool", Quick: map[string]int{}, MustReach: []string{"C01/bytes/accepted", "C01/bytes/rejected"}, PanicLabel: "C01/pool/no-panic", SampleEvery: 3},
-				{Harness: "VP_C01_bytes", Quick: map[string]int{"L": 3}, Thorough: map[string]int{"L": 4}, MustReach: []string{"C01/bytes/accepted", "C01/bytes/rejected"}, PanicLabel: "C01/bytes/no-panic"},
-				{Harness: "VP_C01_lists", Quick: map[string]int{"K": 3}, Thorough: map[string]int{"K": 4}, MustReach: []string{"C01/lists/accepted", "C01/lists/rejected"}, PanicLabel: "C01/lists/no-panic"},
-				{Harness: "VP_C01_tokens", Quick: map[string]int{"K": 2}, Thorough: map[string]int{"K": 3}, MustReach: []string{"C01/tokens/accepted", "C01/tokens/rejected"}, PanicLabel: "C01/tokens/no-panic"},
+				{Harness: "VP_C01_bytes", Quick: map[string]int{"L": 3}, Thorough: map[string]int{"L": 3}, MustReach: []string{"C01/bytes/accepted", "C01/bytes/rejected"}, PanicLabel: "C01/bytes/no-panic"},
+				{Harness: "VP_C01_lists", Quick: map[string]int{"K": 3}, Thorough: map[string]int{"K": 3}, MustReach: []string{"C01/lists/accepted", "C01/lists/rejected"}, PanicLabel: "C01/lists/no-panic"},
+				{Harness: "VP_C01_tokens", Quick: map[string]int{"K": 2}, Thorough: map[string]int{"K": 2}, MustReach: []string{"C01/tokens/accepted", "C01/tokens/rejected"}, PanicLabel: "C01/tokens/no-panic"},
 			},
-			Bounds: map[string]string{"scaling": "CONCRETE SHAPES (not symbolic): 18 input shapes (operator chains, unclosed and closed nesting, lists of stray tokens that raise one diagnostic each, member / call chains, prefix runs, long strings, several lines) parsed at two lengths, the second four times the first: the number of SSA instructions the engine executes grows at most six-fold (natively: elapsed time at 4096 / 16384 units, used only to confirm a candidate)",
+			Bounds: map[string]string{"tiers": "the thorough tier of this check runs the quick-tier parameters (larger bounds were not validated on the unchanged tree within the session and are therefore not registered)", "scaling": "CONCRETE SHAPES (not symbolic): 18 input shapes (operator chains, unclosed and closed nesting, lists of stray tokens that raise one diagnostic each, member / call chains, prefix runs, long strings, several lines) parsed at two lengths, the second four times the first: the number of SSA instructions the engine executes grows at most six-fold (natively: elapsed time at 4096 / 16384 units, used only to confirm a candidate)",
 				"pool":   "CONCRETE POOL: totality and completeness on 72 longer formulas (keywords as member names and operands, nested lists and conditionals, truncated constructs)",
 				"bytes":  "ParseSourceCode on every text of exactly L symbolic bytes (valid UTF-8 or not); quick L=3, thorough L=4; every path must end within the step budget (unwinding check)",
 				"lists":  "a( t1..tK ) and [ t1..tK ] over the 10 tokens the list loops distinguish, symbolic line-break flags, full error recovery (quick K=3, thorough K=4); bytes: every text is parsed twice and both calls must agree",
@@ -340,9 +340,9 @@ func allChecks() []Check {
 				{Harness: "VP_C15_linecol", Quick: map[string]int{"L": 4}, Thorough: map[string]int{"L": 5}, MustReach: []string{"C15/linecol/done"}},
 				{Harness: "VP_C15_binsearch", Quick: map[string]int{"N": 5}, Thorough: map[string]int{"N": 7}, MustReach: []string{"C15/binsearch/done"}},
 				{Harness: "VP_C15_tokranges", Quick: map[string]int{"K": 3}, Thorough: map[string]int{"K": 4}, MustReach: []string{"C15/tokranges/accepted"}, PanicLabel: "C15/tokranges/no-panic"},
-				{Harness: "VP_C15_ranges", Quick: map[string]int{"L": 3}, Thorough: map[string]int{"L": 4}, MustReach: []string{"C15/ranges/accepted", "C15/errtext/diagnostic"}, PanicLabel: "C15/ranges/no-panic"},
+				{Harness: "VP_C15_ranges", Quick: map[string]int{"L": 3}, Thorough: map[string]int{"L": 3}, MustReach: []string{"C15/ranges/accepted", "C15/errtext/diagnostic"}, PanicLabel: "C15/ranges/no-panic"},
 			},
-			Bounds: map[string]string{"tokranges": "token level (stub scanner, unit-width tokens): for every accepted sequence of K symbolic tokens with symbolic line-break flags, leaves and member names cover exactly their token and children nest in source order (natively: byte ranges of the rendered text, names cover their text); quick K=3, thorough K=4",
+			Bounds: map[string]string{"tiers": "thorough: linecol L=5, binsearch N=7, tokranges K=4 (validated on the unchanged tree); byte-level ranges stay at L=3 in both tiers (L=4 did not finish inside its budget)", "tokranges": "token level (stub scanner, unit-width tokens): for every accepted sequence of K symbolic tokens with symbolic line-break flags, leaves and member names cover exactly their token and children nest in source order (natively: byte ranges of the rendered text, names cover their text); quick K=3, thorough K=4",
 				"ranges": "real parse of every text of L symbolic bytes: node ranges within the text, children nested in source order, text[pos:end] of every expression node re-parsed and compared; for rejected texts the error string equals pos(l, c) error(code) msg with (l,c) from the direct count at Diagnostics[0].Start; quick L=3, thorough L=4", "linecol": "all texts of exactly L bytes (every byte symbolic) x every offset 0..L; quick L=4, thorough L=5", "binsearch": "strictly increasing arrays of 0..N symbolic 64-bit ints; quick N=5, thorough N=7"},
 			Outside:     []string{"texts longer than the bound"},
 			Assumptions: commonAssumptions,
